@@ -38,22 +38,25 @@ Removes(f) ==
 \* wf: one of the probe files (the one the project's VCS ignore file names) is also given as a watched
 \* FILE (-w FILE): an explicitly watched file is let through whatever ignores and filters say, and that
 \* too must not depend on the flags
-VARIABLES given, eff, opt, wf, done
+\* ow: a second directory, outside the project origin, is watched as well (-w DIR); the same probes are made
+\* there: the project's own ignore files say nothing about it, the global and built-in sources and the
+\* explicit options apply there as they do inside
+VARIABLES given, eff, opt, wf, ow, done
 
-Init == given \in SUBSET Flags /\ eff = given /\ opt \in Options /\ wf \in BOOLEAN /\ done = FALSE
+Init == given \in SUBSET Flags /\ eff = given /\ opt \in Options /\ wf \in BOOLEAN /\ ow \in BOOLEAN /\ done = FALSE
 
 \* one round of shorthand expansion
 Normalise ==
     /\ ~done
     /\ \E f \in eff : ~(Implies(f) \subseteq eff)
     /\ eff' = eff \cup UNION {Implies(f) : f \in eff}
-    /\ UNCHANGED <<given, opt, wf, done>>
+    /\ UNCHANGED <<given, opt, wf, ow, done>>
 
 Finish ==
     /\ ~done
     /\ \A f \in eff : Implies(f) \subseteq eff
     /\ done' = TRUE
-    /\ UNCHANGED <<given, eff, opt, wf>>
+    /\ UNCHANGED <<given, eff, opt, wf, ow>>
 
 Next == Normalise \/ Finish
 
@@ -67,8 +70,24 @@ PassSource(src) ==
     ELSE CASE opt \in {"filter", "filter-file", "exts"} -> FALSE      \* does not match the filter
            [] OTHER -> ~Active(src)
 
+ProjectSources == {"vcs_project", "generic_project"}
+PassOutside(src) ==
+    CASE opt \in {"filter", "filter-file", "exts"} -> FALSE
+      [] src \in ProjectSources -> TRUE          \* an ignore file says nothing outside its directory
+      [] OTHER -> ~Active(src)
+
+Explicit ==
+    CASE opt = "ignore" -> FALSE
+      [] opt = "ignore-file" -> FALSE
+      [] OTHER -> TRUE
+
 Expect ==
     [sources |-> [s \in Sources |-> PassSource(s)],
+     outside |-> IF ow THEN [s \in Sources \cup {"plain", "explicit"} |->
+                                CASE s = "plain" -> opt \notin {"filter", "filter-file", "exts"}
+                                  [] s = "explicit" -> Explicit
+                                  [] OTHER -> PassOutside(s)]
+                 ELSE [s \in {} |-> TRUE],
      plain   |-> opt \notin {"filter", "filter-file", "exts"},
      \* the probe named by the explicit option itself
      explicit |-> CASE opt = "ignore" -> FALSE
@@ -94,6 +113,10 @@ ShorthandMeaning ==
         /\ "no-discover-ignore" \in given => \A s \in Sources \ {"builtin"} : ~Active(s)
         /\ (given \subseteq {"no-default-ignore"}) => \A s \in Sources \ {"builtin"} : Active(s)
 
+\* outside the origin only the global and built-in sources and the explicit option decide
+OutsideIgnoresProjectFlags ==
+    done /\ ow => \A s \in ProjectSources : PassOutside(s) = (opt \notin {"filter", "filter-file", "exts"})
+
 Emit ==
-    done => PrintT(<<"CASE", ToJson([flags |-> given, opt |-> opt, watchfile |-> wf, expect |-> Expect])>>)
+    done => PrintT(<<"CASE", ToJson([flags |-> given, opt |-> opt, watchfile |-> wf, outside |-> ow, expect |-> Expect])>>)
 =============================================================================
